@@ -7,10 +7,10 @@
    model keeps that, because the tie-break set depends on it).                 *)
 EXTENDS Naturals, Sequences, FiniteSets, TLC
 
-CONSTANTS MaxV, M0s, PinnedDedup
+CONSTANTS MaxV, M0s, PinnedDedup, MaxUses
 
-VARIABLES n, E0, m0, G, EC, pool, phase
-vars == <<n, E0, m0, G, EC, pool, phase>>
+VARIABLES n, E0, m0, G, EC, pool, phase, uses
+vars == <<n, E0, m0, G, EC, pool, phase, uses>>
 
 Pairs(S) == {{a, b} : a \in S, b \in S} \ {{a} : a \in S}
 EdgesOf(c) == Pairs(c)
@@ -65,14 +65,14 @@ Candidates(p) ==
 
 Graphs(k) == {g \in SUBSET Pairs(1..k) : VertsOf(g) = 1..k}      \* no isolated vertices
 Init == /\ n \in 2..MaxV /\ E0 \in Graphs(n) /\ m0 \in M0s
-        /\ G = E0 /\ EC = <<>> /\ pool = {} /\ phase = "start"
+        /\ G = E0 /\ EC = <<>> /\ pool = {} /\ phase = "start" /\ uses = 1
 
 Start == /\ phase = "start"
          /\ EC' = ZeroSeq(E0, m0, Zero(E0, m0))
          /\ G' = E0 \ UNION {EdgesOf(c) : c \in Zero(E0, m0)}
          /\ pool' = PoolOf(E0, m0)
          /\ phase' = "loop"
-         /\ UNCHANGED <<n, E0, m0>>
+         /\ UNCHANGED <<n, E0, m0, uses>>
 (* one iteration of `while self.has_edges()`: random.choice among the largest minimum-score cliques *)
 Pick == /\ phase = "loop" /\ G # {}
         /\ \E c \in Candidates(pool) :
@@ -80,9 +80,13 @@ Pick == /\ phase = "loop" /\ G # {}
               /\ EC' = Append(EC, c) \o ZeroSeq(g1, m0, Zero(g1, m0))
               /\ G' = g1 \ UNION {EdgesOf(z) : z \in Zero(g1, m0)}
               /\ pool' = PoolOf(g1, m0)
-        /\ UNCHANGED <<n, E0, m0, phase>>
-Finish == /\ phase = "loop" /\ G = {} /\ phase' = "done" /\ UNCHANGED <<n, E0, m0, G, EC, pool>>
-Next == Start \/ Pick \/ Finish
+        /\ UNCHANGED <<n, E0, m0, phase, uses>>
+Finish == /\ phase = "loop" /\ G = {} /\ phase' = "done" /\ UNCHANGED <<n, E0, m0, G, EC, pool, uses>>
+(* history: the same EECC object gets its edges back, another size bound, and is asked again *)
+CoverAgain == /\ phase = "done" /\ uses < MaxUses
+              /\ m0' \in M0s \ {m0} /\ G' = E0 /\ EC' = <<>> /\ pool' = {} /\ phase' = "start" /\ uses' = uses + 1
+              /\ UNCHANGED <<n, E0>>
+Next == Start \/ Pick \/ Finish \/ CoverAgain
 Spec == Init /\ [][Next]_vars
 FairSpec == Spec /\ WF_vars(Next)
 
